@@ -1,4 +1,4 @@
-"""Kani unit ADJACENCY (C14, BOUNDED): real AdjacencyChunk::compress / CompressedAdjacencyChunk::iter round trip and AdjacencyList add/compact/delete/iter."""
+"""Kani unit ADJACENCY (C15, BOUNDED): real AdjacencyChunk::compress / CompressedAdjacencyChunk::iter round trip (compressed adjacency chunks)."""
 import os
 from klib import KaniUnit
 
@@ -6,16 +6,13 @@ REL = 'crates/grafeo-core/src/index/adjacency.rs'
 
 
 def build(repo):
-    u = KaniUnit('adjacency', ['C14', 'C15'], 'grafeo-core', cargo_args=['--no-default-features'], copy_crates=['grafeo-common', 'grafeo-core'])
+    u = KaniUnit('adjacency', ['C15'], 'grafeo-core', cargo_args=['--no-default-features'], copy_crates=['grafeo-common', 'grafeo-core'])
     u.module = 'index::adjacency::verif_adjacency'
     u.append(REL, open(os.path.join(os.path.dirname(os.path.dirname(os.path.abspath(__file__))), 'kani', 'adjacency.rs')).read())
     for n in (1, 2, 3):
         u.harness('chunk_compress_roundtrip_len%d' % n, 'adjacency::AdjacencyChunk::compress/CompressedAdjacencyChunk::iter::same_multiset[len=%d]' % n, kind='bounded',
-                  bound='chunk of exactly %d entries, all u64 payloads' % n, timeout=1200, props=['C15', 'C14'], tier='quick' if n < 3 else 'thorough')
-    for n, cap in ((2, 1), (3, 2)):
-        u.harness('list_ops_n%d_cap%d' % (n, cap), 'adjacency::AdjacencyList::iter/degree::exactly_the_live_entries[edges=%d,capacity=%d]' % (n, cap), kind='bounded',
-                  bound='%d edges, chunk capacity %d, compaction after any add, at most one deletion' % (n, cap), timeout=1500, props=['C14'], tier='quick' if n == 2 else 'thorough')
-    u.functions = [('AdjacencyChunk::{new, push, len, is_full, iter, compress}, CompressedAdjacencyChunk::{len, iter}, AdjacencyList::{new, add_edge, mark_deleted, compact, maybe_compress_to_cold, iter, degree}', REL)]
-    u.assumptions = ['BOUNDED: see each harness; with <= 4 edges and COLD_COMPRESSION_THRESHOLD = 4 the hot -> cold migration inside AdjacencyList is not reached (the chunk round trip harness covers compress/iter on their own)']
-    u.not_covered = ['ChunkedAdjacency (RwLock<FxHashMap>: parking_lot is outside Kani), edge / deleted counters, freeze_all, larger lists']
+                  bound='chunk of exactly %d entries, all u64 payloads' % n, timeout=1200, props=['C15'], tier='quick' if n < 3 else 'thorough')
+    u.functions = [('AdjacencyChunk::{new, push, compress}, CompressedAdjacencyChunk::{len, iter}', REL)]
+    u.assumptions = ['BOUNDED: chunks of exactly 1, 2 (quick) and 3 (thorough) entries; payloads are arbitrary u64']
+    u.not_covered = ['AdjacencyList::{add_edge, compact, mark_deleted, iter} (CBMC > 25 min at 2 edges), ChunkedAdjacency (RwLock<FxHashMap>: parking_lot is outside Kani), longer chunks']
     return u
